@@ -335,3 +335,109 @@ func isUnsignedType(t types.Type) bool {
 	}
 	return false
 }
+
+// explore abstractly executes f along every path consistent with env: conditions that evaluate under env follow
+// one branch, all others fork. It returns the set of instructions that can execute. Each (block, predecessor) pair
+// is expanded once, so loops terminate.
+func explore(f *ssa.Function, env *cmpEnv) map[ssa.Instruction]bool {
+	visited := map[ssa.Instruction]bool{}
+	type st struct{ b, prev *ssa.BasicBlock }
+	seen := map[st]bool{}
+	var evalCond func(v ssa.Value, prev *ssa.BasicBlock, depth int) (bool, bool)
+	evalCond = func(v ssa.Value, prev *ssa.BasicBlock, depth int) (bool, bool) {
+		if depth > 8 {
+			return false, false
+		}
+		if env.extern != nil {
+			if x, ok := env.extern(v); ok {
+				if b, ok := x.(bool); ok {
+					return b, true
+				}
+			}
+		}
+		switch x := v.(type) {
+		case *ssa.Const:
+			if x.Value != nil && x.Value.Kind() == constant.Bool {
+				return constant.BoolVal(x.Value), true
+			}
+		case *ssa.UnOp:
+			if x.Op == token.NOT {
+				if b, ok := evalCond(x.X, prev, depth+1); ok {
+					return !b, true
+				}
+			}
+		case *ssa.Phi:
+			for i, p := range x.Block().Preds {
+				if p == prev {
+					return evalCond(x.Edges[i], nil, depth+1)
+				}
+			}
+		case *ssa.BinOp:
+			if isCmp(x.Op) && env.attr != nil {
+				a, okA := env.attr(x.X)
+				b, okB := env.attr(x.Y)
+				if okA && okB && a.name == b.name && a.side != b.side {
+					if s, ok := env.sign[a.name]; ok {
+						if a.side == 1 {
+							s = -s
+						}
+						return evalCmp(int64(s), x.Op, 0), true
+					}
+				}
+			}
+			if isCmp(x.Op) && env.extern != nil {
+				l, okL := env.extern(x.X)
+				r, okR := env.extern(x.Y)
+				if !okR {
+					if k, ok := constInt(x.Y); ok {
+						r, okR = k, true
+					}
+				}
+				if !okL {
+					if k, ok := constInt(x.X); ok {
+						l, okL = k, true
+					}
+				}
+				if okL && okR {
+					li, ok1 := l.(int64)
+					ri, ok2 := r.(int64)
+					if ok1 && ok2 {
+						return evalCmp(li, x.Op, ri), true
+					}
+				}
+			}
+		}
+		return false, false
+	}
+	var walk func(b, prev *ssa.BasicBlock)
+	walk = func(b, prev *ssa.BasicBlock) {
+		if seen[st{b, prev}] {
+			return
+		}
+		seen[st{b, prev}] = true
+		for _, in := range b.Instrs {
+			visited[in] = true
+			switch x := in.(type) {
+			case *ssa.If:
+				if v, ok := evalCond(x.Cond, prev, 0); ok {
+					if v {
+						walk(b.Succs[0], b)
+					} else {
+						walk(b.Succs[1], b)
+					}
+				} else {
+					walk(b.Succs[0], b)
+					walk(b.Succs[1], b)
+				}
+				return
+			case *ssa.Jump:
+				walk(b.Succs[0], b)
+				return
+			case *ssa.Return, *ssa.Panic:
+				return
+			}
+		}
+	}
+	walk(f.Blocks[0], nil)
+	return visited
+}
